@@ -516,3 +516,83 @@ func checkC13CommandCollection(c *Ctx, n int) {
 			"ini: "+decodeLine(va)+" / cli: "+decodeLine(vb), decodeLine(want)+" both ways")
 	}
 }
+
+// checkC08Namespaced: long names that carry a group namespace, across command levels.  An ancestor's
+// `--db.host` stays in scope behind a command that declares a plain `--host` (another name); when the
+// command declares `--db.host` itself (a namespaced group of its own) the innermost declaration receives
+// the value behind the command word, the outer one in front of it.
+func checkC08Namespaced(c *Ctx, n int) {
+	r := c.Rng
+	for i := 0; i < n; i++ {
+		innerKind := []string{"plain host", "namespaced host", "nothing"}[r.Intn(3)]
+		depth := 1 + r.Intn(2)
+		inner := &StructDesc{Fields: []FieldDesc{{Name: "InnerFlag", Exported: true, Kind: "v", Ty: "bool", Tag: `long:"inner-flag"`}}}
+		switch innerKind {
+		case "plain host":
+			inner.Fields = append(inner.Fields, FieldDesc{Name: "InnerHost", Exported: true, Kind: "v", Ty: "str", Tag: `long:"host"`})
+		case "namespaced host":
+			inner.Fields = append(inner.Fields, FieldDesc{Name: "IDB", Exported: true, Kind: "s", Tag: `group:"Inner DB" namespace:"db"`, Sub: &StructDesc{Fields: []FieldDesc{
+				{Name: "InnerHost", Exported: true, Kind: "v", Ty: "str", Tag: `long:"host"`}}}})
+		}
+		sd := inner
+		path := []string{}
+		for l := depth; l >= 1; l-- {
+			sd = &StructDesc{Fields: []FieldDesc{{Name: fmt.Sprintf("Cmd%d", l), Exported: true, Kind: "s", Sub: sd, Tag: fmt.Sprintf(`command:"c%d"`, l)}}}
+			path = append([]string{fmt.Sprintf("c%d", l)}, path...)
+		}
+		sd.Fields = append([]FieldDesc{{Name: "DB", Exported: true, Kind: "s", Tag: `group:"DB" namespace:"db"`, Sub: &StructDesc{Fields: []FieldDesc{
+			{Name: "OuterHost", Exported: true, Kind: "v", Ty: "str", Tag: `long:"host"`}}}}}, sd.Fields...)
+		cs := &Case{Name: "app", NsDelim: ".", EnvNsDelim: "_"}
+		cs.Build = []BuildOp{{Kind: "addgroup", Target: 1, Short: "Application Options", Struct: sd}}
+		// where --db.host=V is typed: in front of the path, between its words, behind it
+		at := r.Intn(len(path) + 1)
+		var argv []string
+		for k, w := range path {
+			if k == at {
+				argv = append(argv, "--db.host=V")
+			}
+			argv = append(argv, w)
+		}
+		if at == len(path) {
+			argv = append(argv, "--db.host=V")
+		}
+		if innerKind == "plain host" && r.Intn(2) == 0 {
+			argv = append(argv, "--host=P")
+		}
+		wantOuter, wantInner := "V", ""
+		if innerKind == "namespaced host" && at == len(path) {
+			wantOuter, wantInner = "", "V"
+		}
+		if argv[len(argv)-1] == "--host=P" {
+			wantInner = "P"
+		}
+		cs.Ops = []Op{{Kind: "parse", Args: argv}}
+		cs.Description = describeOps(cs)
+		c.RunCases([]*Case{cs}, func(cr *CaseResult) {
+			c.classifyCase(cr)
+			if cr.Real == nil || cr.Real.dead {
+				return
+			}
+			var obs parseObs
+			for _, o := range parseBlocks(cr) {
+				obs = o
+			}
+			c.Class(fmt.Sprintf("c08/namespaced: inner=%s depth=%d typed-at=%d", innerKind, depth, at))
+			get := func(n string) string {
+				if fr, ok := cr.Real.fields[n]; ok {
+					return fr.val.String()
+				}
+				return ""
+			}
+			outer, in2 := get("OuterHost"), get("InnerHost")
+			in := map[string]interface{}{"case": cs.Description, "argv": argv, "the_command_declares": innerKind}
+			ok := obs.panic == "" && obs.errKind == "ok" && outer == wantOuter && in2 == wantInner
+			if !ok {
+				in["case_file"] = c.saveCase(cr)
+			}
+			c.Check("namespaced-names-are-scoped-like-any-other", ok, "C08:namespaced", in,
+				fmt.Sprintf("%s %s %q outer --db.host=%q inner=%q", obs.panic, obs.errKind, obs.errMsg, outer, in2),
+				fmt.Sprintf("success, outer --db.host=%q inner=%q", wantOuter, wantInner))
+		})
+	}
+}
